@@ -181,6 +181,15 @@ def hashToInt (h : Bytes) : Nat :=
   let ret := beToNat (h.take P.frBytes)
   ret >>> (bitLen ret - P.frBits)
 
+/-- SPECIFICATION of the digest-to-integer step (FIPS 186-4 §6.4, SEC 1 §4.1.3: "the leftmost min(N, outlen) bits of Hash(M)"): of the
+    (at most `frBytes`) leading bytes, the excess over `frBits` is counted from the LENGTH of the byte string, not from the bit length of
+    its value. `hashToInt` (the Go rule, used by Sign and Verify alike) shifts less when the digest starts with zero bits and the order
+    has fewer bits than the digest kept: the two differ for about half of all digests on every curve with `frBits < 8·frBytes`
+    (recorded known finding; op ECHF compares the Go function with THIS rule). -/
+def hashToIntFIPS (h : Bytes) : Nat :=
+  let t := h.take P.frBytes
+  beToNat t >>> (8 * t.length - P.frBits)
+
 /-- range check of one signature component -/
 def inRange (x : Nat) : Bool := decide (0 < x) && decide (x < P.n)
 
@@ -230,6 +239,15 @@ def verify (sm : Int → Pt Nat → Pt Nat) (H : Option HashFn) (Q : Pt Nat) (si
     match P.msgInt H msg with
     | .error e => .error e
     | .ok e => .ok (P.verifyCore sm Q e r s)
+
+/-- `PublicKey.Verify` with the KEY VALIDATION in front (the public key is an exported field, so a caller can hand in any pair of
+    coordinates): the point at infinity is not a public key, and neither is a point off the curve — the group formulas never use the
+    coefficient `b`, an off-curve point would be processed on another curve `y² = x³ + ax + b'` (possibly one with small subgroups).
+    Only then the signature is parsed and the equation decided. -/
+def verifyPK (sm : Int → Pt Nat → Pt Nat) (H : Option HashFn) (Q : Pt Nat) (sig msg : Bytes) : Except Err Bool :=
+  if Q.isNone then .error .pkInfinity
+  else if !P.E.onCurve Q then .error .notOnCurve
+  else P.verify sm H Q sig msg
 
 /-- `PrivateKey.Sign(message, hFunc)` with the nonce `k` as a parameter (the Go code draws it from an AES-CTR stream keyed by
     SHA-512(scalar ‖ entropy ‖ message)): `r = x([k]G) mod n`, `s = k⁻¹(e + r·d) mod n`, output `r ‖ s`, each component in
